@@ -155,7 +155,7 @@ def intended_tables(rep, shapes):
     nts = sorted({s[1] for s in shapes})
     cfg = os.path.join(vlib.BUILD, "cfg", "zebra_emit.cfg")
     os.makedirs(os.path.dirname(cfg), exist_ok=True)
-    open(cfg, "w").write('SPECIFICATION Spec\nCONSTANTS\n  NrSet = {%s}\n  NtSet = {%s}\n  Ops = {"residualGive", "smootherTake"}\n  EmitTables = TRUE\n'
+    open(cfg, "w").write('SPECIFICATION Spec\nCONSTANTS\n  NrSet = {%s}\n  NtSet = {%s}\n  Ops = {"residualGive", "smootherTake", "xsmootherTake", "residualTake"}\n  EmitTables = TRUE\n'
                          'INVARIANTS EpochDisjoint AllRadialOnce AllCirclesOnce Emit\n' % (",".join(map(str, nrs)), ",".join(map(str, nts))))
     r = vlib.tlc("ZebraSchedule", cfg, heap="8g", tag="zebraemit", timeout=1500)
     rep.add_tlc(r, "ZebraSchedule.tla intended tables for %d x %d sizes" % (len(nrs), len(nts)))
@@ -196,7 +196,8 @@ def observe_ops(nr, nt, nc, dirbc, threads):
     out = {}
     for op, its in ops.items():
         loops = {}
-        own = {"residualGive": "ResidualGive/residualGive.cpp", "smootherTake": "SmootherTake/smootherSolver.cpp"}.get(op, "")
+        own = {"residualGive": "ResidualGive/residualGive.cpp", "smootherTake": "SmootherTake/smootherSolver.cpp",
+               "xsmootherTake": "ExtrapolatedSmootherTake/smootherSolver.cpp", "residualTake": "ResidualTake/residualTake.cpp"}.get(op, "@")
         for it in its:
             if own not in it["f"]:
                 continue      # helper regions (vector copies) are separate parallel regions
@@ -240,3 +241,6 @@ def contained(observed, intended):
 
 def written_arrays_all(loops):
     return {a for l in loops for t in l["tasks"] for (a, n) in map(tuple, t["w"])}
+
+
+ZEBRA_OPS = ("residualGive", "smootherTake", "xsmootherTake", "residualTake")
